@@ -509,6 +509,10 @@ func opReturnHex(text string) string {
 }
 
 func genC06(g *G) {
+	// every case runs in a memory-bounded child process, in batches (see isoBatch): nothing a deposit does — fatal runtime
+	// errors included — can take the driver down, and the case that kills or blocks a child is pinpointed
+	B := &isoBatch{g: g}
+	defer B.flush()
 	nonce := uint64(0)
 	next := func() string { nonce++; return utoa(nonce) }
 	goodCD := func() string { return hx(cat(w32(g.big256()), w32u(20), g.Bytes(20))) }
@@ -630,18 +634,18 @@ func genC06(g *G) {
 						xs = append(xs, "d:1:"+itoa(2+i%2)+":"+next()+":"+hx(cat(w32u(uint64(i+1)), w32u(20), make([]byte, 20)))+":-")
 					}
 				}
-				g.Emit("evm", joinOr(xs, ";"))
-				g.Emit("hevm", joinOr(xs, ";"))
-				g.Emit("route", joinOr(xs, ";"))
+				B.add("evm", joinOr(xs, ";"))
+				B.add("hevm", joinOr(xs, ";"))
+				B.add("route", joinOr(xs, ";"))
 				// the same range with the hostile deposit alone on its own destination (an entry must not exist for it)
 				alone := append([]string{}, xs...)
 				alone[pos] = strings.Replace(alone[pos], "d:1:2:", "d:1:5:", 1)
 				alone[pos] = strings.Replace(alone[pos], "d:0:2:", "d:0:5:", 1)
-				g.Emit("hevm", joinOr(alone, ";"))
-				g.Emit("route", joinOr(alone, ";"))
-				g.Emit("retry1", joinOr(alone, ";"))
-				g.Emit("retry1", joinOr(xs, ";"))
-				g.Emit("retry1", "d:1:2:"+next()+":"+hx(cat(w32u(5), w32u(20), make([]byte, 20)))+":-/"+joinOr(xs, ";"))
+				B.add("hevm", joinOr(alone, ";"))
+				B.add("route", joinOr(alone, ";"))
+				B.add("retry1", joinOr(alone, ";"))
+				B.add("retry1", joinOr(xs, ";"))
+				B.add("retry1", "d:1:2:"+next()+":"+hx(cat(w32u(5), w32u(20), make([]byte, 20)))+":-/"+joinOr(xs, ";"))
 			}
 		}
 	}
@@ -666,8 +670,8 @@ func genC06(g *G) {
 							xs = append(xs, "d:"+itoa(2+i%2)+":"+next()+":"+goodCDx+":0")
 						}
 					}
-					g.Emit("hsub", joinOr(xs, ";"))
-					g.Emit("subretry", joinOr(xs, ";"))
+					B.add("hsub", joinOr(xs, ";"))
+					B.add("subretry", joinOr(xs, ";"))
 				}
 			}
 			for _, b := range btcBad {
@@ -679,7 +683,7 @@ func genC06(g *G) {
 						xs = append(xs, "t:"+opReturnHex("0x"+strings.Repeat("cd", 20)+"_"+itoa(2+i%2))+":"+itoa(1000+i))
 					}
 				}
-				g.Emit("hbtc", joinOr(xs, ";"))
+				B.add("hbtc", joinOr(xs, ";"))
 			}
 		}
 	}
@@ -704,14 +708,14 @@ func genC06(g *G) {
 		}
 		for _, hItem := range hostile {
 			xs := joinOr([]string{goodE(2), hItem, goodE(3), goodE(2)}, ";")
-			g.Emit("iso", "hevm", xs)
+			B.add("hevm", xs)
 			if g.Thorough() || g.Intn(3) == 0 {
-				g.Emit("iso", "retry1", xs)
+				B.add("retry1", xs)
 			}
 		}
 		subH := "d:5:" + next() + ":" + hx(cat(w32u(1), ww, make([]byte, 64))) + ":0"
-		g.Emit("iso", "hsub", joinOr([]string{goodS(2), subH, goodS(3)}, ";"))
-		g.Emit("iso", "subretry", joinOr([]string{goodS(2), subH, goodS(3)}, ";"))
+		B.add("hsub", joinOr([]string{goodS(2), subH, goodS(3)}, ";"))
+		B.add("subretry", joinOr([]string{goodS(2), subH, goodS(3)}, ";"))
 	}
 	// Bitcoin: arbitrary nulldata scripts (any opcode after OP_RETURN, several pushes, OP_PUSHDATA1/2/4, truncated pushes) in a
 	// transaction of the block — whether or not it pays the bridge — between good deposits; child process with a deadline
@@ -747,7 +751,7 @@ func genC06(g *G) {
 		}
 		kind := []string{"t", "t", "u"}[g.Intn(3)] // u: the script sits in a transaction that does not pay the bridge
 		item := kind + ":" + hx([]byte(sc)) + ":" + itoa(1000+g.Intn(1000))
-		g.Emit("iso", "hbtc", joinOr([]string{goodB(2), item, goodB(3)}, ";"))
+		B.add("hbtc", joinOr([]string{goodB(2), item, goodB(3)}, ";"))
 	}
 	retry2Item := func() string {
 		switch g.Intn(8) {
@@ -763,14 +767,14 @@ func genC06(g *G) {
 	n := g.Count(300, 9000)
 	for i := 0; i < n; i++ {
 		ev := list(g.Intn(7), func() string { return evmItem(false) })
-		g.Emit("hevm", ev)
+		B.add("hevm", ev)
 		if i%3 == 0 && i < 3*g.Count(100, 1500) {
-			g.Emit("route", ev)
+			B.add("route", ev)
 		}
-		g.Emit("hsub", list(g.Intn(7), subItem))
-		g.Emit("hbtc", list(g.Intn(7), btcItem))
-		g.Emit("retry2", list(g.Intn(6), retry2Item))
-		g.Emit("evm", list(g.Intn(7), func() string { return evmItem(false) }))
+		B.add("hsub", list(g.Intn(7), subItem))
+		B.add("hbtc", list(g.Intn(7), btcItem))
+		B.add("retry2", list(g.Intn(6), retry2Item))
+		B.add("evm", list(g.Intn(7), func() string { return evmItem(false) }))
 		txs := []string{}
 		for t := 0; t < 1+g.Intn(3); t++ {
 			if g.Intn(10) == 0 {
@@ -779,8 +783,8 @@ func genC06(g *G) {
 				txs = append(txs, list(g.Intn(6), func() string { return evmItem(true) }))
 			}
 		}
-		g.Emit("retry1", strings.Join(txs, "/"))
-		g.Emit("sub", list(g.Intn(7), subItem))
+		B.add("retry1", strings.Join(txs, "/"))
+		B.add("sub", list(g.Intn(7), subItem))
 		blks := []string{}
 		for t := 0; t < 1+g.Intn(3); t++ {
 			switch g.Intn(12) {
@@ -792,7 +796,7 @@ func genC06(g *G) {
 				blks = append(blks, list(g.Intn(5), subItem))
 			}
 		}
-		g.Emit("subretry", strings.Join(blks, "/"))
-		g.Emit("btc", list(g.Intn(7), btcItem))
+		B.add("subretry", strings.Join(blks, "/"))
+		B.add("btc", list(g.Intn(7), btcItem))
 	}
 }
